@@ -1372,7 +1372,10 @@ def run(rep, tier):
         "[resource-drop] / [resource-new] / [resource-rep] carry the WIT resource name. On the runtime's MIR: "
         "stream/future readers mark a transferred handle with the value their Drop skips and otherwise call "
         "drop-readable once; writers and ErrorContext drop once; Option<T>::rep_take leaves None. NOT decided: the "
-        "host's resource table, any execution, user code calling the #[doc(hidden)] methods, custom Resource::Rep.",
+        "host's resource table, any execution, user code calling the #[doc(hidden)] methods; which of the two "
+        "parameter-release callbacks an async import runs for each subtask status (own<T> parameters of a call "
+        "cancelled before it started) is decided by C21 R21.1 / C08 R8.3; what the runtime's stream/future read and "
+        "write operations do with the reader/writer they hold is outside this module.",
         trusted_base=["syn parse of crates/rust/src/{bindgen,interface,lib}.rs and of the embedded templates after "
                       "hole substitution (rules/C07.py: to_rust)", "rustc nightly MIR (opt-level 0) of crates/guest-rust, "
                       "unwind edges ignored", "tools/synfacts, tools/mirfacts", "rustc type checker (witnesses)"],
